@@ -144,7 +144,7 @@ def main(ctx):
                        "and after; TLC replays Build/Copy|InPlace/Mutate of Convert.tla and judges Preserve, InputKept, "
                        "NoInterference. Plus seeded random trees (boundary integers, float32, nanosecond times, big numbers), "
                        "writer cross-checks on every subtree (oj.JSON, sen.String, pretty.JSON; simple vs gen) and parser "
-                       "cross-checks on random JSON texts (number forms, escaped strings followed by plain ones, quotes padded to the last byte of a 4096-byte read) through Parse and through ParseReader with whole, 1-, 3-, 7-byte and half reads. distinct_nontrivial = number of distinct cases (operation x tree x experiments, writer trees, texts) other than a bare null.")
+                       "cross-checks on random JSON texts (number forms incl. seeded float literals with 15..19 significant digits with and without exponent, escaped strings followed by plain ones, quotes padded to the last byte of a 4096-byte read) through Parse and through ParseReader with whole, 1-, 3-, 7-byte and half reads. distinct_nontrivial = number of distinct cases (operation x tree x experiments, writer trees, texts) other than a bare null.")
     ctx.assumptions += [
         "options fixed to keep nulls and times: ojg.Options{OmitNil:false, TimeFormat:\"time\"}",
         "integer widths normalise to int64/gen.Int, float32 to float64; alt.Decompose/Dup/Alter may return the nicer float64 that rounds to the same float32",
